@@ -308,8 +308,15 @@ def check_spec(spec, meta, tier, index):
                         # the same grammar object with smaller weights put in place (FiniteFactor.weights setter) and solved
                         # again: the answer is the least fixed point of the NEW weights, whatever the previous call left behind
                         spec2, refs2 = reweighted['spec'], reweighted
+                        inplace = (index + mi) % 2 == 0         # edit the stored tensor in place, or put a new tensor in place
                         for t in spec2['terminals']:
-                            fgg.factors[binfo['el'][t].name].weights = torch.tensor(G.weights_in(spec2, t, S), dtype=torch.bool if S == 'bool' else torch.float64)
+                            neww = torch.tensor(G.weights_in(spec2, t, S), dtype=torch.bool if S == 'bool' else torch.float64)
+                            fac = fgg.factors[binfo['el'][t].name]
+                            if inplace and tuple(fac.weights.physical.shape) == tuple(neww.shape):
+                                fac.weights.physical.copy_(neww)
+                            else:
+                                fac.weights = neww
+                        obs['reweighted_in_place' if inplace else 'reweighted_by_setter'] = obs.get('reweighted_in_place' if inplace else 'reweighted_by_setter', 0) + 1
                         o2 = C.call(lambda: fggs.sum_product(fgg, method=method, semiring=sr, tol=run['tol'], kmax=run['kmax']).to_dense())
                         obs['reweighted_runs'] = obs.get('reweighted_runs', 0) + 1
                         exp2 = torch.tensor(refs2[S][start], dtype=torch.bool if S == 'bool' else torch.float64).reshape(shape)
